@@ -532,6 +532,11 @@ func (c *Cluster) Unconsumed(id int) int {
 	return c.Conns[id].srv.Unread()
 }
 
+// ConnClosedLocked: the client closed its end or the broker dropped the connection (lock held by caller).
+func (c *Cluster) ConnClosedLocked(id int) bool {
+	return c.Conns[id].cli.Closed() || c.Conns[id].closedByBroker
+}
+
 func (c *Cluster) ConnBroker(id int) int {
 	c.mu.Lock()
 	defer c.mu.Unlock()
